@@ -1,22 +1,32 @@
 //@ note: scratch experiments (not registered)
 use crate::stubs::*;
-use grafeo_core::graph::rdf::{RdfStore, RdfStoreConfig, Term, Triple, TriplePattern};
-fn with_s1<R>(b: u8, f: impl FnOnce(&str) -> R) -> R { let arr = [b]; f(unsafe { std::str::from_utf8_unchecked(&arr) }) }
-fn subj(i: u8) -> Term { with_s1(if i == 0 { b'a' } else { b'b' }, |s| Term::iri(s)) }
-fn pred(i: u8) -> Term { with_s1(if i == 0 { b'p' } else { b'q' }, |s| Term::iri(s)) }
-fn obj(i: u8) -> Term { with_s1(if i == 0 { b'a' } else { b'b' }, |s| Term::typed_literal(s, "i")) }
-fn triple(k: u8) -> Triple { Triple::new(subj(k & 1), pred((k >> 1) & 1), obj((k >> 2) & 1)) }
-macro_rules! ex { ($name:ident, $body:block) => {
-    #[kani::proof]
-    #[kani::unwind(5)]
-    #[kani::stub(parking_lot::RawRwLock::lock_exclusive_slow, lk_slow)]
-    #[kani::stub(parking_lot::RawRwLock::lock_shared_slow, lk_sh_slow)]
-    #[kani::stub(parking_lot::RawRwLock::unlock_exclusive_slow, ulk_slow)]
-    #[kani::stub(parking_lot::RawRwLock::unlock_shared_slow, ulk_sh_slow)]
-    #[kani::stub(alloc::fmt::format, fmt_stub)]
-    fn $name() $body
-} }
-ex!(r0_new, { let st = RdfStore::with_config(RdfStoreConfig { initial_capacity: 4, index_objects: true }); kani::cover!(true); std::mem::forget(st); });
-ex!(r1_insert_concrete, { let st = RdfStore::with_config(RdfStoreConfig { initial_capacity: 4, index_objects: true }); assert!(st.insert(triple(3))); assert!(st.len() == 1); kani::cover!(true); std::mem::forget(st); });
-ex!(r2_insert_sym, { let st = RdfStore::with_config(RdfStoreConfig { initial_capacity: 4, index_objects: true }); let k: u8 = kani::any(); kani::assume(k < 8); assert!(st.insert(triple(k))); assert!(st.len() == 1); kani::cover!(true); std::mem::forget(st); });
-ex!(r3_two_inserts_concrete, { let st = RdfStore::with_config(RdfStoreConfig { initial_capacity: 4, index_objects: true }); assert!(st.insert(triple(3))); assert!(st.insert(triple(5))); assert!(st.len() == 2); kani::cover!(true); std::mem::forget(st); });
+use grafeo_common::types::{LogicalType, Value};
+use grafeo_core::execution::{DataChunk, ValueVector};
+use grafeo_core::execution::operators::{LimitOperator, Operator, OperatorResult, SkipOperator};
+
+/// child producing chunks of sizes [2,1] with values 0,1 | 2
+struct Child { step: u8 }
+impl Operator for Child {
+    fn next(&mut self) -> OperatorResult {
+        self.step += 1;
+        match self.step {
+            1 => { let mut c = ValueVector::with_type(LogicalType::Int64); c.push_int64(0); c.push_int64(1); Ok(Some(DataChunk::new(vec![c]))) }
+            2 => { let mut c = ValueVector::with_type(LogicalType::Int64); c.push_int64(2); Ok(Some(DataChunk::new(vec![c]))) }
+            _ => Ok(None),
+        }
+    }
+    fn reset(&mut self) { self.step = 0; }
+    fn name(&self) -> &'static str { "Child" }
+}
+#[kani::proof]
+#[kani::unwind(6)]
+#[kani::stub(alloc::fmt::format, fmt_stub)]
+fn lim1() {
+    let limit: usize = kani::any(); kani::assume(limit <= 5);
+    let mut op = LimitOperator::new(Box::new(Child { step: 0 }), limit, vec![LogicalType::Int64]);
+    let mut total = 0usize; let mut i = 0;
+    while i < 4 { match op.next() { Ok(Some(ch)) => { total += ch.row_count(); std::mem::forget(ch); } _ => {} } i += 1; }
+    assert!(total == if limit < 3 { limit } else { 3 });
+    kani::cover!(limit == 1 && total == 1);
+    std::mem::forget(op);
+}
